@@ -117,6 +117,9 @@ LmtdFails(r) ==
     (IF 10 * Min({r.d1, r.d2}) - 1 <= r.L /\ 2 * r.L <= 10 * (r.d1 + r.d2) + 2 THEN {} ELSE {"C20.lmtd_between_min_and_mean"})
     \cup (IF r.L = r.Lswap THEN {} ELSE {"C20.lmtd_symmetric"})
     \cup (IF r.L = r.Lts THEN {} ELSE {"C20.lmtd_from_temperatures_consistent"})
+    (* the documented sequence forms: the same pair inside list / array arguments that mix tied and untied pairs, and with one   *)
+    (* argument a scalar (either one): the value of the pair does not depend on the company it is evaluated in                 *)
+    \cup (IF \A i \in 1..Len(r.Lforms) : r.Lforms[i] = r.L THEN {} ELSE {"C20.lmtd_same_in_sequence_forms"})
     \cup (IF r.d1 # r.d2 \/ r.L = 10 * r.d1 THEN {} ELSE {"C20.lmtd_equal_differences"})
     (* Carlson / Polya bracket without roots:  G^(2/3) A^(1/3) <= L <= (2G + A)/3,  G = sqrt(d1 d2), A = (d1+d2)/2 *)
     \cup (IF 2 * (r.L + 1) * (r.L + 1) * (r.L + 1) >= 1000 * r.d1 * r.d2 * (r.d1 + r.d2) THEN {} ELSE {"C20.lmtd_lower_bracket"})
